@@ -126,8 +126,19 @@ def inputs(ctx):
                                  for k in range(ncaps)]
                         ins.append({"id": "g%d" % n, "caps": _caps(rng, specs, spacing, first)})
                         n += 1
+    # the same line of text in several captions (a speaker's name, a refrain) at the same place from
+    # the top while the captions have different numbers of rows, and the same caption twice
+    for speaker in ("JOHN:", "- Yes.", "MAN 2:"):
+        for shapes in ([1, 2], [2, 1], [1, 3, 2], [3, 3, 1], [2, 2], [4, 1, 4]):
+            specs = []
+            for j, rows in enumerate(shapes):
+                specs.append([speaker] + ["%s line %d of %d" % ("abcdefgh"[j], r, rows) for r in range(1, rows + 1)])
+            for spacing in ("tight", "sparse"):
+                ins.append({"id": "s%d" % n, "caps": _caps(rng, specs, spacing, "late")})
+                n += 1
     for k in range(300 if ctx.quick else 15000):
         specs = []
+        pool = []
         for _ in range(rng.randrange(1, 5)):
             lines = []
             for _ in range(rng.randrange(1, 5)):
@@ -139,6 +150,9 @@ def inputs(ctx):
                     words.append("".join(rng.choice(ALPHA + PUNCT) for _ in range(wl)))
                     rest -= wl + 1
                 lines.append(" ".join(words))
+            if pool and rng.random() < 0.3:
+                lines[0] = rng.choice(pool)          # a line seen before, again first
+            pool.append(lines[0])
             if sum(_wrap_rows(l) for l in lines) <= 15:
                 specs.append(lines)
         if specs:
